@@ -676,7 +676,8 @@ theorem presence (script : List Op) (hwf : WFM script) (hc : SubsCold script) (i
     ∀ (js : List Nat) (r : Nat) (mpre : Path) (mls : List Level),
       mountLevels script i rr js r = some (mpre, mls) →
       ∃ rec, Handed script (arr js i) r rec ∧ rec.path = mpre ++ path0 ∧
-        r < (W script (arr js i)).routers.length ∧ arr js i < script.length := by
+        r < (W script (arr js i)).routers.length ∧ arr js i < script.length ∧
+        rec.ver = (if js = [] then ver0 else none) := by
   intro js
   induction js with
   | nil =>
@@ -701,7 +702,7 @@ theorem presence (script : List Op) (hwf : WFM script) (hc : SubsCold script) (i
         have hm : isMount op = false := by
           cases op <;> first | rfl | (simp [routeRecOf] at hrec)
         refine ⟨rec0, ⟨op, hop, ?_⟩, by simp,
-          decl_router_exists script hwf i op r rec0 hop hrec, lt_of_getElem? hop⟩
+          decl_router_exists script hwf i op r rec0 hop hrec, lt_of_getElem? hop, by simp [e2]⟩
         show (r, rec0) ∈ handed (W script i) op
         rw [handed_nomount _ _ hm, hrec]; simp
     · simp [hr] at hml
@@ -721,7 +722,7 @@ theorem presence (script : List Op) (hwf : WFM script) (hc : SubsCold script) (i
           obtain ⟨mpre', mls'⟩ := x
           simp [hsub] at hrest
           obtain ⟨rfl, rfl⟩ := hrest
-          obtain ⟨recS, hH, hpath, hex, _⟩ := ih s mpre' mls' hsub
+          obtain ⟨recS, hH, hpath, hex, _, _⟩ := ih s mpre' mls' hsub
           have hjl := lt_of_getElem? hop
           have hrt := hwf.rt j _ hop
           simp only [] at hrt
@@ -736,14 +737,309 @@ theorem presence (script : List Op) (hwf : WFM script) (hc : SubsCold script) (i
             rcases hinvS.pres (arr js i) recS htn hH hex with h | ⟨treg, _, _, h⟩
             · exact h
             · rw [hinvS.cold hcold] at h; simp at h
-          refine ⟨_, ⟨_, hop, ?_⟩, ?_, hp_lt, hjl⟩
-          · show (p, _) ∈ handed (W script j) (.mount p s seg inh extra)
-            simp only [handed, List.mem_map, Prod.mk.injEq]
-            refine ⟨_, ?_, rfl, rfl⟩
+          refine ⟨{ ver := none, path := seg :: recS.path,
+                    hs := ((if inh then ((W script j).routers[p]).mw else []) ++ ((W script j).routers[s]).mw ++ extra) ++
+                      recS.hs }, ⟨_, hop, ?_⟩, ?_, hp_lt, hjl, by simp⟩
+          · show (p, _) ∈ (mountRecs (W script j) p s seg inh extra).map (fun rt => (p, rt))
+            refine List.mem_map.mpr ⟨_, ?_, rfl⟩
             unfold mountRecs
             rw [hpr, hsr]
             simp only [List.mem_append, List.mem_map]
             exact Or.inl ⟨recS, hpend, rfl⟩
           · simp [hpath]
+
+/-! ### uniqueness of the instance behind a path, and the theorem -/
+
+theorem mounts_unique (script : List Op) (hwf : WFM script) (i rr : Nat) :
+    ∀ (js js' : List Nat) (r : Nat) (mpre : Path) (mls mls' : List Level),
+      mountLevels script i rr js r = some (mpre, mls) → mountLevels script i rr js' r = some (mpre, mls') →
+      js = js' := by
+  intro js
+  induction js with
+  | nil =>
+    intro js' r mpre mls mls' h1 h2
+    simp only [mountLevels] at h1
+    by_cases hr : r = rr
+    · simp [hr] at h1
+      obtain ⟨rfl, _⟩ := h1
+      cases js' with
+      | nil => rfl
+      | cons j' t' =>
+        simp only [mountLevels] at h2
+        cases hop : script[j']? with
+        | none => simp [hop] at h2
+        | some op =>
+          cases op <;> simp [hop] at h2
+          case mount p s seg inh extra =>
+            obtain ⟨_, h2⟩ := h2
+            cases hsub : mountLevels script i rr t' s with
+            | none => simp [hsub] at h2
+            | some x => simp [hsub] at h2
+    · simp [hr] at h1
+  | cons j t ih =>
+    intro js' r mpre mls mls' h1 h2
+    simp only [mountLevels] at h1
+    cases hop : script[j]? with
+    | none => simp [hop] at h1
+    | some op =>
+      cases op <;> simp [hop] at h1
+      case mount p s seg inh extra =>
+        obtain ⟨_, h1⟩ := h1
+        cases hsub : mountLevels script i rr t s with
+        | none => simp [hsub] at h1
+        | some x =>
+          obtain ⟨mp1, ml1⟩ := x
+          simp [hsub] at h1
+          obtain ⟨rfl, _⟩ := h1
+          cases js' with
+          | nil =>
+            simp only [mountLevels] at h2
+            by_cases hr : r = rr
+            · simp [hr] at h2
+            · simp [hr] at h2
+          | cons j' t' =>
+            simp only [mountLevels] at h2
+            cases hop' : script[j']? with
+            | none => simp [hop'] at h2
+            | some op' =>
+              cases op' <;> simp [hop'] at h2
+              case mount p' s' seg' inh' extra' =>
+                obtain ⟨_, h2⟩ := h2
+                cases hsub' : mountLevels script i rr t' s' with
+                | none => simp [hsub'] at h2
+                | some x' =>
+                  obtain ⟨mp2, ml2⟩ := x'
+                  simp [hsub'] at h2
+                  obtain ⟨⟨rfl, rfl⟩, _⟩ := h2
+                  have hjj : j = j' := hwf.msegs j j' _ _ seg' hop hop' rfl rfl
+                  subst hjj
+                  rw [hop] at hop'
+                  cases hop'
+                  rw [ih t' s _ _ _ hsub hsub']
+
+theorem mounted_from_sub (script : List Op) (hwf : WFM script) (i rr : Nat) :
+    ∀ (js : List Nat) (r : Nat) (x : Path × List Level), mountLevels script i rr js r = some x → js ≠ [] → 1 ≤ rr := by
+  intro js
+  induction js with
+  | nil => intro r x _ h; exact (h rfl).elim
+  | cons j t ih =>
+    intro r x h _
+    simp only [mountLevels] at h
+    cases hop : script[j]? with
+    | none => simp [hop] at h
+    | some op =>
+      cases op <;> simp [hop] at h
+      case mount p s seg inh extra =>
+        obtain ⟨_, h⟩ := h
+        cases hsub : mountLevels script i rr t s with
+        | none => simp [hsub] at h
+        | some y =>
+          have hrt := hwf.rt j _ hop
+          simp only [] at hrt
+          cases t with
+          | nil =>
+            simp only [mountLevels] at hsub
+            by_cases hs : s = rr
+            · omega
+            · simp [hs] at hsub
+          | cons j' t' => exact ih s y hsub (by simp)
+
+theorem versioned_on_serving (script : List Op) (hwf : WFM script) (i rr v : Nat) (path0 : Path)
+    (gls : List Level) (hs : List Hid) (hri : routeInfo script i = some (rr, some v, path0, gls, hs)) : rr = 0 := by
+  cases hop : script[i]? with
+  | none => simp [routeInfo, hop] at hri
+  | some op =>
+    have hseg : (routeSeg op).isSome = true := by
+      cases op <;> first | rfl | (simp [routeInfo, hop] at hri)
+    have hex := routeRecOf_exists script hwf.toWF i op hop hseg
+    obtain ⟨⟨r', rec0⟩, hrec⟩ := Option.isSome_iff_exists.mp hex
+    obtain ⟨gls', hs', hinfo, _⟩ := routeInfo_of_model script hwf.toWF i op r' rec0 hop hrec
+    rw [hri] at hinfo
+    simp only [Option.some.injEq, Prod.mk.injEq] at hinfo
+    obtain ⟨e1, e2, _, _, _⟩ := hinfo
+    subst e1
+    have hile : i ≤ script.length := Nat.le_of_lt (lt_of_getElem? hop)
+    cases op with
+    | route o seg hs0 =>
+      cases o with
+      | router r => simp [routeRecOf] at hrec; rw [← hrec.2] at e2; simp at e2
+      | group g => simp [routeRecOf] at hrec; obtain ⟨p, _, _, h⟩ := hrec; rw [← h] at e2; simp at e2
+      | vrouter v' =>
+        simp [routeRecOf] at hrec
+        obtain ⟨r'', ver, hv, rfl, _⟩ := hrec
+        exact vrouter_is_serving script hwf i v' r'' ver hile hv
+      | vgroup vg =>
+        cases hp : (W script i).vgroups[vg]? with
+        | none => simp [routeRecOf, hp] at hrec
+        | some p =>
+        cases hv : (W script i).vrouters[p.owner]? with
+        | none => simp [routeRecOf, hp, hv] at hrec
+        | some x =>
+        obtain ⟨r'', ver⟩ := x
+        simp [routeRecOf, hp, hv] at hrec
+        obtain ⟨rfl, _⟩ := hrec
+        exact vrouter_is_serving script hwf i p.owner r'' ver hile hv
+    | aroute o seg b hh a =>
+      cases o with
+      | app => simp [routeRecOf] at hrec; exact hrec.1.symm
+      | agroup g => simp [routeRecOf] at hrec; obtain ⟨p, _, h, _⟩ := hrec; exact h.symm
+      | avgroup vg =>
+        cases hp : (W script i).avgroups[vg]? with
+        | none => simp [routeRecOf, hp] at hrec
+        | some p =>
+        cases hv : (W script i).vrouters[p.owner]? with
+        | none => simp [routeRecOf, hp, hv] at hrec
+        | some x =>
+        obtain ⟨r'', ver⟩ := x
+        simp [routeRecOf, hp, hv] at hrec
+        obtain ⟨rfl, _⟩ := hrec
+        exact vrouter_is_serving script hwf i p.owner r'' ver hile hv
+    | _ => simp [routeRecOf] at hrec
+
+theorem routeInfo_seg (script : List Op) (hwf : WF script) (i rr : Nat) (ver0 : Option Nat) (path0 : Path)
+    (gls : List Level) (hs : List Hid) (hri : routeInfo script i = some (rr, ver0, path0, gls, hs)) :
+    ∃ sg op, path0.getLast? = some sg ∧ script[i]? = some op ∧ routeSegOf op = some sg := by
+  cases hop : script[i]? with
+  | none => simp [routeInfo, hop] at hri
+  | some op =>
+    have hseg : (routeSeg op).isSome = true := by
+      cases op <;> first | rfl | (simp [routeInfo, hop] at hri)
+    have hex := routeRecOf_exists script hwf i op hop hseg
+    obtain ⟨⟨r', rec0⟩, hrec⟩ := Option.isSome_iff_exists.mp hex
+    obtain ⟨gls', hs', hinfo, _⟩ := routeInfo_of_model script hwf i op r' rec0 hop hrec
+    rw [hri] at hinfo
+    simp only [Option.some.injEq, Prod.mk.injEq] at hinfo
+    obtain ⟨_, _, e3, _, _⟩ := hinfo
+    obtain ⟨sg, c1, c2⟩ := routeRecOf_seg _ _ _ _ hrec
+    exact ⟨sg, op, by rw [e3]; exact c2, rfl, c1⟩
+
+theorem getLast?_append_some {α} (a b : List α) (x : α) (h : b.getLast? = some x) : (a ++ b).getLast? = some x := by
+  rw [List.getLast?_append, h]; rfl
+
+/-- **Soundness of the composition model, `Mount` included** — for scripts in which only the
+    serving router is warmed up explicitly. -/
+theorem compose_admitted_mount (script : List Op) (hwf : WFM script) (hc : SubsCold script) (tg : Target)
+    (ver : Option Nat) (path : Path) (ls : List Level) (hl : levels script tg = some (ver, path, ls)) :
+    ∃ chain, compose script ver path = some chain ∧ matchLevels ls chain = true := by
+  obtain ⟨js, i⟩ := tg
+  simp only [levels] at hl
+  cases hri : routeInfo script i with
+  | none => simp [hri] at hl
+  | some x =>
+    obtain ⟨rr, ver0, path0, gls, hs⟩ := x
+    simp only [hri, Option.bind_eq_bind, Option.bind_some] at hl
+    cases hml : mountLevels script i rr js 0 with
+    | none => simp [hml] at hl
+    | some y0 =>
+      obtain ⟨mpre, mls⟩ := y0
+      simp only [hml, Option.bind_some, Option.some.injEq, Prod.mk.injEq] at hl
+      obtain ⟨rfl, rfl, rfl⟩ := hl
+      obtain ⟨rec, hH, hpath, hex, harrlt, hver⟩ := presence script hwf hc i rr ver path0 gls hs hri js 0 mpre mls hml
+      have hv : rec.ver = ver := by
+        by_cases hjs : js = []
+        · simpa [hjs] using hver
+        · have hnone : rec.ver = none := by simpa [hjs] using hver
+          have h1 := mounted_from_sub script hwf i rr js 0 _ hml hjs
+          cases ver with
+          | none => exact hnone
+          | some v =>
+            have := versioned_on_serving script hwf i rr v path0 gls hs hri
+            omega
+      obtain ⟨sg, opi, hsg, hopi, hsegi⟩ := routeInfo_seg script hwf.toWF i rr ver path0 gls hs hri
+      -- router 0 at the end of the script
+      have hlen := routers_length_M script script.length (Nat.le_refl _)
+      have h0lt : 0 < (W script script.length).routers.length := by omega
+      have hrs0 : (W script script.length).routers[0]? = some (W script script.length).routers[0] :=
+        List.getElem?_eq_getElem h0lt
+      generalize (W script script.length).routers[0] = rs0 at hrs0
+      have hinv := rinvM script hwf.r script.length (Nat.le_refl _) 0 rs0 hrs0
+      have hcomp : compose script ver (mpre ++ path0) = findRoute (warmup rs0).tree ver (mpre ++ path0) := by
+        unfold compose
+        rw [← W_full, hrs0]
+      have htree : ∀ y ∈ (warmup rs0).tree, ∃ i' rec0' treg, i' ≤ treg ∧ Handed script i' 0 rec0' ∧
+          y = regRec script 0 treg rec0' := by
+        intro y hy
+        unfold warmup at hy
+        by_cases hw : rs0.warmed = true
+        · simp only [hw, if_true] at hy
+          obtain ⟨i', rec0', treg, _, a3, _, a5, a6⟩ := hinv.tree y hy
+          exact ⟨i', rec0', treg, a3, a5, a6⟩
+        · have hw' : rs0.warmed = false := by simpa using hw
+          simp only [hw', Bool.false_eq_true, if_false] at hy
+          rw [foldl_register] at hy
+          simp only [List.mem_append, List.mem_map] at hy
+          rcases hy with hy | ⟨rt, hrt, rfl⟩
+          · obtain ⟨i', rec0', treg, _, a3, _, a5, a6⟩ := hinv.tree y hy
+            exact ⟨i', rec0', treg, a3, a5, a6⟩
+          · obtain ⟨i', a2, a3⟩ := hinv.pend rt hrt
+            exact ⟨i', rt, script.length, by omega, a3, by simp [regRec, hinv.mw]⟩
+      have hpres : ∃ treg, regRec script 0 treg rec ∈ (warmup rs0).tree := by
+        unfold warmup
+        by_cases hw : rs0.warmed = true
+        · simp only [hw, if_true]
+          rcases hinv.pres (arr js i) rec harrlt hH hex with hp | ⟨treg, _, _, c⟩
+          · rw [hinv.warmed hw] at hp; simp at hp
+          · exact ⟨treg, c⟩
+        · have hw' : rs0.warmed = false := by simpa using hw
+          simp only [hw', Bool.false_eq_true, if_false]
+          rw [foldl_register]
+          rcases hinv.pres (arr js i) rec harrlt hH hex with hp | ⟨treg, _, _, c⟩
+          · refine ⟨script.length, ?_⟩
+            simp only [List.mem_append, List.mem_map]
+            exact Or.inr ⟨rec, hp, by simp [regRec, hinv.mw]⟩
+          · exact ⟨treg, by simp only [List.mem_append]; exact Or.inl c⟩
+      obtain ⟨treg0, hmem0⟩ := hpres
+      have hfind : ∃ y, (warmup rs0).tree.reverse.find? (fun rt => rt.ver == ver && rt.path == mpre ++ path0) = some y := by
+        cases hf : (warmup rs0).tree.reverse.find? (fun rt => rt.ver == ver && rt.path == mpre ++ path0) with
+        | some y => exact ⟨y, rfl⟩
+        | none =>
+          have := List.find?_eq_none.mp hf (regRec script 0 treg0 rec) (by simpa using hmem0)
+          simp [regRec, hv, hpath] at this
+      obtain ⟨y, hy⟩ := hfind
+      have hyp := List.find?_some hy
+      have hymem : y ∈ (warmup rs0).tree := by simpa using List.mem_of_find?_eq_some hy
+      obtain ⟨i', rec0', treg, b2, b3, b4⟩ := htree y hymem
+      simp only [Bool.and_eq_true, beq_iff_eq] at hyp
+      have hpath' : rec0'.path = mpre ++ path0 := by rw [← hyp.2, b4]; rfl
+      -- the oracle's description of the record that was found
+      obtain ⟨js', i'', rr', ver', path0', gls', hs', mpre', mls', d1, d2, d3, d4, d5, d6, sg', opi', d7, d8, d9⟩ :=
+        bridge script hwf hc i' 0 rec0' b3
+      have hlast : (mpre ++ path0).getLast? = some sg := getLast?_append_some _ _ _ hsg
+      have hlast' : (mpre' ++ path0').getLast? = some sg' := getLast?_append_some _ _ _ d7
+      rw [← d4, hpath', hlast] at hlast'
+      have hsgeq : sg = sg' := Option.some.inj hlast'
+      subst hsgeq
+      have hii : i'' = i := hwf.segs i'' i opi' opi sg d8 hopi d9 hsegi
+      subst hii
+      rw [hri] at d2
+      simp only [Option.some.injEq, Prod.mk.injEq] at d2
+      obtain ⟨e1, e2, e3, e4, e5⟩ := d2
+      subst e1 e2 e3 e4 e5
+      have hmp : mpre' = mpre := by
+        rw [hpath'] at d4
+        exact (List.append_cancel_right d4).symm
+      subst hmp
+      have hjs : js' = js := mounts_unique script hwf i'' rr js' js 0 mpre' mls' mls d3 hml
+      subst hjs
+      rw [hml] at d3
+      simp only [Option.some.injEq, Prod.mk.injEq, true_and] at d3
+      subst d3
+      -- the chain and its admission
+      refine ⟨y.hs, by rw [hcomp]; simp [findRoute, hy], ?_⟩
+      obtain ⟨op', hop', hmem'⟩ := b3
+      obtain ⟨mid, hmid, hsub⟩ := usesB_split script (selUse 0) i' treg op' hop' (handed_not_use _ _ _ hmem' 0) b2
+      rw [b4]
+      show matchLevels ([routerLevel script 0 (arrival js' i'')] ++ mls ++ gls ++ [(hs, [])])
+        (usesB script (selUse 0) treg ++ rec0'.hs) = true
+      rw [show arrival js' i'' = i' from d1, hmid, routerLevel_eq, splitAt_eq]
+      have := matchLevels_cons (usesB script (selUse 0) i') _ mid _ (mls ++ gls ++ [(hs, [])]) hsub d6
+      simpa [usesB, List.append_assoc] using this
+
+theorem subsCold_of_subsColdB (script : List Op) (h : subsColdB script = true) : SubsCold script := by
+  intro op hop r hr
+  simp only [subsColdB, List.all_eq_true] at h
+  have := h op hop
+  rw [hr] at this
+  simpa using this
 
 end Rivaas.Compose
